@@ -283,6 +283,11 @@ impl<const N: usize, T> Drop for Drain<'_, N, T> {
         // TODO: optimize for the case where the hole is in the front or the back
         // TODO: optimize for the case where there are fewer items to move from the front
 
+        if N == 0 {
+            // Nothing to rearrange in a zero-capacity buffer
+            return;
+        }
+
         // SAFETY: `buf` is a valid pointer because `Drain` holds a mutable reference to it.
         let buf = unsafe { self.buf.as_mut() };
         let mut remaining = self.buf_size - self.range.end;
